@@ -1,7 +1,8 @@
 // instantiation TU for unit "callbacklist": abstract argument type, multi-threaded policy
 #include <eventpp/callbacklist.h>
-struct VArg { int id; };
-struct Pol { using Threading = eventpp::MultipleThreading; };
+struct VArg { int id; VArg(); VArg(const VArg &); VArg(VArg &&); VArg & operator=(const VArg &); VArg & operator=(VArg &&); ~VArg(); };
+// the policy takes the argument BY VALUE, so that moving the invocation's argument into it would be visible
+struct Pol { using Threading = eventpp::MultipleThreading; static bool canContinueInvoking(VArg a); };
 template class eventpp::internal_::CallbackListBase<void(VArg), Pol>;
 using CL = eventpp::CallbackList<void(VArg), Pol>;
 struct UserEach { void operator()(const CL::Handle &, CL::Callback &) const; };
